@@ -319,7 +319,7 @@ func (c *ctx) fail(key, desc string) {
 	if n := len(c.caseOps); n > 0 && !c.shrinking {
 		last := c.caseOps[n-1]
 		switch strings.Fields(last)[0] {
-		case "ck", "cknew", "hashrd":
+		case "ck", "cknew", "hashrd", "handles2":
 			ops = []string{last}
 		case "create", "createw", "bigcreate", "conc", "open", "has", "put", "get":
 			if n > 2 && c.reproduces(key, []string{"reset", last}) {
@@ -902,6 +902,94 @@ func (c *ctx) runOp(line string) string {
 			}
 		}
 		return res
+	case "handles2":
+		// handles2 a=<hex> cut=<k> b=<hex>: two NewFS handles on ONE directory (two
+		// components of a program, or two processes, sharing a store).  Creator A
+		// (handle 1) has consumed its first k bytes when creator B (handle 2) runs a
+		// whole Create; then A finishes.  Scheduled with a gate, no timing involved.
+		aHex, ok1 := kvGet(ws, "a")
+		cutS, ok2 := kvGet(ws, "cut")
+		bHex, ok3 := kvGet(ws, "b")
+		cut, err1 := strconv.Atoi(cutS)
+		if !ok1 || !ok2 || !ok3 || err1 != nil {
+			return "bad-op"
+		}
+		a, b := hx.UnHex(aHex), hx.UnHex(bHex)
+		if cut < 0 || cut > len(a) {
+			return "bad-op"
+		}
+		c.reset()
+		h1 := c.store("fs")
+		h2, err := objects.NewFS(c.fsDir)
+		if h1 == nil || err != nil {
+			return "bad-op"
+		}
+		arrived, release := make(chan struct{}), make(chan struct{})
+		calls := 0
+		rd := readerFunc(func(p []byte) (int, error) {
+			calls++
+			switch calls {
+			case 1:
+				if len(p) < cut {
+					return 0, errors.New("harness: buffer smaller than the first piece")
+				}
+				return copy(p, a[:cut]), nil
+			case 2:
+				close(arrived)
+				<-release
+				if len(p) < len(a)-cut {
+					return 0, errors.New("harness: buffer smaller than the second piece")
+				}
+				return copy(p, a[cut:]), nil
+			}
+			return 0, io.EOF
+		})
+		var resA string
+		doneA := make(chan struct{})
+		c.j.Risky(line)
+		go func() { resA = doCreate(h1, rd); close(doneA) }()
+		select {
+		case <-arrived:
+		case <-doneA:
+			c.j.Clear()
+			return "a=" + resA + " early"
+		case <-time.After(watchdog):
+			c.j.Clear()
+			return "stuck"
+		}
+		resB := doCreate(h2, bytes.NewReader(b))
+		close(release)
+		select {
+		case <-doneA:
+		case <-time.After(watchdog):
+			c.j.Clear()
+			return "stuck"
+		}
+		c.j.Clear()
+		listing := c.showListing()
+		check := func(who, res string, content []byte) {
+			if !strings.HasPrefix(res, "ok ") {
+				return
+			}
+			key := strings.TrimPrefix(res, "ok ")
+			for hi, h := range []objects.Objects{h1, h2} {
+				if got := doOpen(h, key); key != shaHex(content) || got != "ok "+hx.Hex(content) {
+					c.fail("two-handles-object-corrupted", fmt.Sprintf(
+						"two store handles share a directory; creator %s got %s, but Open through handle %d returns %s instead of its %d bytes",
+						who, res, hi+1, clip(got), len(content)))
+					return
+				}
+			}
+		}
+		check("B", resB, b)
+		check("A", resA, a)
+		if !strings.HasPrefix(resA, "ok ") || !strings.HasPrefix(resB, "ok ") {
+			c.fail("two-handles-create-fails", "overlapping Creates through two handles on one directory: A returned "+resA+", B returned "+resB)
+		}
+		if !strings.HasSuffix(listing, "tmp=[]") {
+			c.fail("two-handles-temp-left", "after both Creates returned the temp directory is not empty: "+clip(listing))
+		}
+		return "a=" + resA + " b=" + resB + " " + listing
 	case "hashrd":
 		if len(ws) != 2 {
 			return "bad-op"
@@ -1736,6 +1824,31 @@ func (g *gen) callerSources(thorough bool) {
 	}
 }
 
+// twoHandles: two NewFS handles on one directory with overlapping Creates.
+func (g *gen) twoHandles(n int) {
+	rep := g.c.rep
+	for i := 0; i < n; i++ {
+		la := 1 + g.rnd.Intn(40)
+		lb := g.rnd.Intn(60)
+		if i%3 == 0 {
+			la, lb = 2000+g.rnd.Intn(3000), 1+g.rnd.Intn(5000)
+		}
+		a, b := g.content(la), g.content(lb)
+		if i%5 == 4 {
+			b = append([]byte{}, a...) // equal contents
+		}
+		cut := g.rnd.Intn(la + 1)
+		if i%2 == 0 && la > 1 {
+			cut = 1 + g.rnd.Intn(la-1)
+		}
+		line := fmt.Sprintf("handles2 a=%s cut=%d b=%s %s %s", hx.Hex(a), cut, hx.Hex(b), shaWord(a), shaWord(b))
+		g.emit(line)
+		g.emit("reset")
+		rep.Count("two-handles-overlapping-creates")
+		rep.Case(fmt.Sprintf("handles2 %d %d %d %v", la, cut, lb, i%5 == 4), true)
+	}
+}
+
 func (g *gen) randomScript(content []byte, maxChunk int, failAt int) []item {
 	var s []item
 	off := 0
@@ -2186,6 +2299,7 @@ func main() {
 			timed("error values (len<=6)", func() { g.errorValues(6) })
 			timed("file-write faults (RLIMIT_FSIZE)", func() { g.writeFaults(true) })
 			timed("caller-owned sources reused after Create", func() { g.callerSources(true) })
+			timed("two handles on one directory", func() { g.twoHandles(400) })
 			timed("large streams (64 MiB +-1, > 128 MiB)", func() { g.largeStreams(true) })
 			timed("big contents", func() { g.bigContents(400) })
 			timed("gated interleavings", func() { g.gated(45000, true) })
@@ -2197,6 +2311,7 @@ func main() {
 			timed("error values (len<=3)", func() { g.errorValues(3) })
 			timed("file-write faults (RLIMIT_FSIZE)", func() { g.writeFaults(false) })
 			timed("caller-owned sources reused after Create", func() { g.callerSources(false) })
+			timed("two handles on one directory", func() { g.twoHandles(40) })
 			timed("large streams (64 MiB + 1)", func() { g.largeStreams(false) })
 			timed("big contents", func() { g.bigContents(114) })
 			timed("gated interleavings", func() { g.gated(2500, true) })
